@@ -220,14 +220,17 @@ def run(ctx):
                   "padding node width for %s is %s, expected %d" % (v, [p[1] for p in pads], want), ctx.loc(cr))
         rp = ctx.fn(MERKLE + "::root_from_paths")
         ev3 = Ev(P, rp, assume=assume)
-        chunks = [(bb, intval(W, ev3, ev3.call_args(bb)[1])) for bb, t in rp.calls() if callee_name(t["fn"].get("path", "")) == "chunks"]
+        chunks = [(bb, intval(W, ev3, ev3.call_args(bb)[1])) for bb, t in rp.calls() if callee_name(t["fn"].get("path", "")) in ("chunks", "chunks_exact")]
         ctx.check("node-width", "%s/path-chunk-width" % v, len(chunks) == 1 and chunks[0][1] == want, "PATH is split into %d-byte elements" % want,
                   "PATH chunk width for %s is %s, expected %d" % (v, [c[1] for c in chunks], want), ctx.loc(rp))
         mods = []
         for bl in rp.blocks:
             for i, st in enumerate(bl.stmts):
                 if st["k"] == "assign" and st["rv"]["k"] == "binop" and st["rv"]["op"] == "Rem":
-                    mods.append(intval(W, ev3, ev3.op(st["rv"]["b"], (bl.idx, i))))
+                    # only a remainder of the PATH length (the position parity test `index % 2` is not a width)
+                    lhs = ev3.op(st["rv"]["a"], (bl.idx, i))
+                    if values.contains(lhs, lambda x: isinstance(x, tuple) and x and x[0] == "len" and x[1] == ("param", rp.path, 4)):
+                        mods.append(intval(W, ev3, ev3.op(st["rv"]["b"], (bl.idx, i))))
         ctx.check("node-width", "%s/path-length-modulus" % v, all(m == want for m in mods), "PATH length checked modulo %d" % want,
                   "PATH length modulus for %s is %s, expected %d" % (v, mods, want), ctx.loc(rp), nontrivial=bool(mods))
     lt = ctx.item_bytes("roughenough::TREE_LEAF_TWEAK")
@@ -268,27 +271,8 @@ def run(ctx):
     tags = [f[0] for f in fields]
     ctx.check("response-assembly", "make_response/tags", okb and tags == sp["versions"]["Google"]["response_tags"], "response tags SIG NONC PATH SREP CERT INDX",
               "response tags are %s (%s)" % (tags, why), ctx.loc(mr))
-    role = {}
-    for (tg, val, bb) in fields:
-        v0 = values.strip_payload(val)
-        if tg in ("SIG", "SREP"):
-            okf = is_call(v0, "RtMessage::get_field") and v0[2][0] == ("param", mr.path, 2) and tag_of(v0[2][1]) == tg
-            ctx.check("response-assembly", "make_response/%s-from-batch-srep" % tg, okf, "%s = srep.get_field(%s)" % (tg, tg),
-                      "%s of the response is %s" % (tg, fmt(v0)), mr.loc(bb))
-        elif tg == "INDX":
-            w = le_written(W, v0)
-            okf = w is not None and w["size"] == 4 and w["width"] == 4 and w["endian"] == "LittleEndian" and w["value"][0] == "param"
-            ctx.check("response-assembly", "make_response/INDX-le-u32-of-param", okf, "INDX = u32 LE of the idx parameter",
-                      "INDX is not the little-endian u32 of a parameter: %s" % (w,), mr.loc(bb))
-            if okf:
-                role["INDX"] = w["value"][2]
-        else:
-            okf = v0[0] == "param"
-            ctx.check("response-assembly", "make_response/%s-is-parameter" % tg, okf, "%s = parameter %s" % (tg, v0[2] if okf else "?"),
-                      "%s of the response is %s" % (tg, fmt(v0)), mr.loc(bb))
-            if okf:
-                role[tg] = v0[2]
-    # call site in send_responses
+    # Every field value of the response is looked at as the caller sees it: make_response's parameters are replaced by the arguments of its
+    # (only) call in send_responses, so it does not matter whether a value is passed in or read from `self` inside make_response.
     sr = ctx.fn(sm.SEND)
     sev = W.ev(sr.path)
     sites = [bb for bb, t in sr.calls() if mr.path in P.call_targets(t)]
@@ -296,26 +280,41 @@ def run(ctx):
         raise AnchorMissing("one make_response call in send_responses")
     args = [W.expand(a) for a in sev.call_args(sites[0])]
     selfp = ("param", sr.path, 1)
-
-    def arg(tagname):
-        i = role.get(tagname)
-        return args[i - 1] if i else None
-
-    srep_t = args[1]
+    bound = {}
+    for (tg, val, bb) in fields:
+        v0 = values.strip_payload(val)
+        if tg == "INDX":
+            w = le_written(W, v0)
+            okf = w is not None and w["size"] == 4 and w["width"] == 4 and w["endian"] == "LittleEndian"
+            ctx.check("response-assembly", "make_response/INDX-le-u32-of-param", okf, "INDX = u32 LE of the index value",
+                      "INDX is not a little-endian u32: %s" % (w,), mr.loc(bb))
+            if okf:
+                bound[tg] = W.expand(W.bind_params(W.expand(w["value"]), mr.path, args))
+        else:
+            bound[tg] = W.expand(W.bind_params(W.expand(v0), mr.path, args))
+    srep_t = None
+    for tg in ("SIG", "SREP"):
+        v = values.strip_payload(bound.get(tg)) if bound.get(tg) is not None else None
+        okf = is_call(v, "RtMessage::get_field") and tag_of(v[2][1]) == tg
+        src = W.expand(values.strip_payload(v[2][0])) if okf else None
+        if okf and srep_t is None:
+            srep_t = src
+        ctx.check("response-assembly", "make_response/%s-from-batch-srep" % tg, okf and src == srep_t, "%s = srep.get_field(%s) of the batch's signed response" % (tg, tg),
+                  "%s of the response is %s" % (tg, fmt(v)), ctx.loc(mr))
     oks = is_call(srep_t, "OnlineKey::make_srep") and srep_t[2][0] == ("field", selfp, "online_key") and srep_t[2][1] == ("field", selfp, "version")
     root_t = srep_t[2][3] if is_call(srep_t, "OnlineKey::make_srep") else None
     okroot = is_call(root_t, "MerkleTree::compute_root") and root_t[2][0] == ("field", selfp, "merkle")
     ctx.check("response-assembly", "send_responses/srep-signed-by-own-key-over-own-root", oks and okroot,
               "srep = online_key.make_srep(self.version, now, self.merkle.compute_root())",
               "the SREP used for responses is %s" % fmt(srep_t), sr.loc(sites[0]))
-    ctx.check("response-assembly", "send_responses/srep-made-once-per-batch", is_call(srep_t) and not sr.in_loop(srep_t[3][1]),
+    ctx.check("response-assembly", "send_responses/srep-made-once-per-batch", is_call(srep_t) and srep_t[3][0] == sr.path and not sr.in_loop(srep_t[3][1]),
               "make_srep is called once per batch (outside the response loop)", "make_srep is called inside the per-request loop", sr.loc(sites[0]))
-    cert_a = arg("CERT")
+    cert_a = bound.get("CERT")
     ctx.check("response-assembly", "send_responses/cert-is-own-certificate", cert_a == ("field", selfp, "cert_bytes"), "CERT = self.cert_bytes",
-              "CERT argument is %s" % fmt(cert_a), sr.loc(sites[0]))
-    idx_a = uncast(arg("INDX")) if arg("INDX") else None
-    nonce_a = arg("NONC")
-    path_a = arg("PATH")
+              "CERT of the response is %s" % fmt(cert_a), sr.loc(sites[0]))
+    idx_a = uncast(bound.get("INDX")) if bound.get("INDX") is not None else None
+    nonce_a = bound.get("NONC")
+    path_a = bound.get("PATH")
     ie_idx = iter_elem(W, idx_a) if idx_a else None
     ie_nonce = iter_elem(W, nonce_a) if nonce_a else None
     okidx = ie_idx is not None and ie_idx["what"] == "index" and ie_idx["container"] == ("field", selfp, "requests")
